@@ -45,7 +45,7 @@ def check(ctx):
     ctx.rule("C09-G", "the pushed style is unwound on the renderer it was applied to: the number of sub-renderers an arm pushes "
              "after apply equals the number it pops before unwind (a cell's style lives on the cell's own renderer)")
     for rid, fn in (("C09-A", rule_a), ("C09-B", rule_b), ("C09-C", rule_c), ("C09-D", rule_d),
-                    ("C09-E", rule_e), ("C09-F", rule_f), ("C09-F", rule_f2), ("C09-G", rule_g)):
+                    ("C09-E", rule_e), ("C09-F", rule_f), ("C09-F", rule_f2), ("C09-C", rule_h), ("C09-G", rule_g)):
         ctx.guard(rid, fn)
 
 
@@ -634,6 +634,23 @@ def rule_f2(ctx):
                   r[3]["span"], b.id, "the tag is switched to the %s tag here but pre_wrapped is set to %s in the same step"
                   % ("first-line" if src == main_arg else "continuation", stores or "nothing"))
     ctx.floor("C09-F", "tag switches in add_text", n, 2)
+
+
+def rule_h(ctx):
+    """A node's style is applied by the render walk once per node.  The synthetic Container that insert_child wraps
+    around a node (to attach a marker or generated content) must carry the default style — giving it the element's
+    style would apply the element's colours twice."""
+    F = ctx.facts
+    ic = F.one("insert_child")
+    styled = ic.calls(lambda cd, t: ends(cd, "RenderNode::new_styled"))
+    news = ic.calls(lambda cd, t: ends(cd, "RenderNode::new"))
+    lits = [st for x in ic.reachable() for st in ic.stmts(x) if (st.get("rv") or {}).get("agg") == "adt" and (st.get("rv") or {}).get("adt") == "RenderNode"]
+    ctx.check(not styled and not lits and len(news) >= 1, "C09-C", "insert_child:wrapper-has-default-style", ic.span, ic.id,
+              "insert_child builds a node with an explicit style (%d new_styled, %d literals): the wrapper around an element "
+              "must be a plain RenderNode::new(Container(..))" % (len(styled), len(lits)))
+    # and it never reads the style of the node it wraps
+    reads = [1 for (_bb, _w, pl, acc) in ic.all_places() if any(isinstance(e, dict) and e.get("n") == "style" and ends(e.get("o"), "RenderNode") for e in pl["p"])]
+    ctx.check(not reads, "C09-C", "insert_child:does-not-touch-styles", ic.span, ic.id, "")
 
 
 def _stack_calls(b, blocks, which):
